@@ -49,7 +49,7 @@ def _case(draw):
                 ent[side] = dict(kind='N', a=np.ones(shp).tolist(), b=np.zeros(shp).tolist(), c=np.zeros(shp).tolist())
         bc.append(ent)
     P = dict(name=name, faces=faces, bc=bc, scheme='upwind', FL='SUPERBEE', gamma=None,
-             bc_style=draw(st.sampled_from(['passed', 'passed', 'late', 'late_c', 'shared_late', 'late_explicit'])))
+             bc_style=draw(st.sampled_from(['passed', 'passed', 'late', 'late_min', 'late_c', 'shared_late', 'late_explicit'])))
     P['D'] = draw(gen.diffusivity(d, zeros=True))
     P['u'] = draw(gen.divfree_velocity(name, faces, amp=draw(st.sampled_from([0.0, 1e-2, 1.0, 10.0, 100.0]))))
     nonneg = draw(st.integers(0, 9)) < 3
